@@ -326,7 +326,7 @@ class HeapEngine(HeapOps):
             return ('handler', h_uuid4)
         if mod == 'uuid' and attr == 'UUID':
             return ('handler', h_UUID)
-        raise Unsupported('external call %s.%s' % (mod, attr))
+        return super().external_call(imp, attr)
 
     def py_str_of(self, v, st, node):
         if v.op == 'ctor' and v.args[0] == 'VOpq' and v.args[1].op == 'app' and v.args[1].args[0] == 'uuid_obj':
